@@ -383,6 +383,7 @@ func Run(c *core.Ctx, replay string) (*core.Result, error) {
 		for k := 0; k < n; k++ {
 			id++
 			o := absprog.Full()
+			o.UnexportedMembers = rng.Intn(2) == 0
 			o.Generics = false
 			o.NStructs = 1 + rng.Intn(5)
 			o.DashTags = true
